@@ -1,2 +1,27 @@
-add("C13", "property-based testing: exhaustive grid enumeration + Hypothesis-generated sizes/points vs. independent numbering and shape-function reference",
+T = "property-based testing (Hypothesis-generated cases, sharded, collect->bucket->shrink)"
+add("C01", T + ": adjoint vs exact/Richardson-extrapolated differences along class-preserving directions over generated module recipes",
+    "Generated module configurations (every public module family, option combinations, seeds incl. partial/dyadic) are differentiated against exact differences (affine modules, 1e-10) or extrapolated central differences with an error estimate (1e-6). Finds wrong factors/signs/missing terms/raises in any visited configuration; says nothing about configurations not generated.", "DESIGN.md §3 C01")
+add("C02", T + ": generated module graphs (programs) vs an independent forward-mode accumulation of exact Jacobians",
+    "Random DAG programs with fan-out, repeated inputs, input/output slices, nested networks and seed subsets; the expected source sensitivities come from an independent forward-mode oracle (1e-10), itself cross-checked by differences on a sample.", "DESIGN.md §3 C02")
+add("C03", T + ": generated call histories on caching networks vs a freshly constructed identical network (model-based / differential)",
+    "Optimisation-loop-like histories over seven network templates with caching components; the final cycle on the used objects must equal a fresh network, reset must clear all sensitivities.", "DESIGN.md §3 C03")
+add("C04", T + ": metamorphic relations (linearity in the seed, k-fold accumulation, bit-wise state snapshots) over the C01 module recipes",
+    "Metamorphic relations on single modules: linear combination of seeds, repeated sensitivity() calls, bit-identical states around sensitivity()/reset()/response().", "DESIGN.md §3 C04")
+add("C05", T + ": generated solver x matrix-class x trans x rhs cases vs the defining equation (normwise backward error)",
+    "Each solver on generated matrices of its documented class (bounded condition number, several scales and storages) must satisfy the requested (transposed/adjoint) system to 1e-10 backward error (CG: 20*tol), keep shape/dtype.", "DESIGN.md §3 C05")
+add("C06", T + ": generated update/solve histories on LDAWrapper(CountingSolver) vs residual + span reference model; exhaustive sparsity patterns for small n",
+    "Histories of update/solve with N/T/H, real/complex, block and dependent right-hand sides; residual oracle, fresh-wrapper differential for raises, one-directional inner-solve-count model; all off-diagonal patterns enumerated for n=3 (quick) / n=4 (thorough).", "DESIGN.md §3 C06")
+add("C07", T + ": generated matrices/partitions/rhs for LinSolve, Inverse, SystemOfEquations, StaticCondensation vs defining equations and dense Schur complement",
+    "Three-stage programs per module object (response, repeat, new inputs) judged by backward error of the defining equations and numpy's dense Schur complement; input states must stay bit-identical.", "DESIGN.md §3 C07")
+add("C08", T + ": generated domains/materials/bc vs an independent scatter + own Gauss element matrices + physics invariants",
+    "Assembled matrices are compared entrywise (1e-11) with an independently derived connectivity/scatter and own element matrices, plus symmetry, PSD, rigid-body null space, mass and Poisson energy identities.", "DESIGN.md §3 C08")
+add("C09", T + ": generated kernels/paddings/fields vs direct nested-loop convolution with per-side ideal extension and O(nel^2) cone average",
+    "FilterConv/DensityFilter forward values vs naive references (1e-12), kernel checks and invariants; genuinely ambiguous padding readings are accepted as any-of and counted.", "DESIGN.md §3 C09")
+add("C11", T + ": generated dense/sparse pencils with prescribed gapped spectra vs residual, bilinear normalisation, ordering and numpy.linalg spectra",
+    "Eigenpairs are judged by residual, q^T B q = 1, sorter identity, sign convention, completeness (dense) and closest-to-sigma set (sparse FE pencils).", "DESIGN.md §3 C11")
+add("C12", T + ": generated affine displacement fields vs own Voigt strains/D matrices and the assembled stiffness energy; known finding factored out",
+    "Strain/Stress/ElementAverage/NodalOperation/ThermoMechanical vs exact affine-field references (1e-11) and energy identity with AssembleStiffness; the test-pinned 2x shear is a recorded known finding whose exact shape is matched, everything else is still reported.", "DESIGN.md §3 C12")
+add("C13", T + ": exhaustive grid enumeration + Hypothesis-generated sizes/points vs independent numbering and shape-function reference",
     "All grid sizes up to a bound are enumerated and every numbering/connectivity table compared with an independently derived one; shape-function identities are checked at generated points. Exhaustive for the stated grid sub-space, sampled for element sizes and points.", "DESIGN.md §3 C13")
+add("C14", T + ": generated domains/directions/parameters/fields vs an element-by-element reference of Langelaar's scheme + metamorphic mirror/axis-swap relations",
+    "OverhangFilter output vs an independent layer-by-layer reference (1e-12), bounds, string/vector direction equivalence, mirror and axis-swap relations.", "DESIGN.md §3 C14")
